@@ -34,6 +34,8 @@ pub enum Opk {
     Has(Id32),
     Get(Id32),
     Find(usize),
+    /// find_replaceable_event / find_parameterized_replaceable_event at an address
+    Holder(AddrKey),
 }
 
 impl Opk {
@@ -45,6 +47,7 @@ impl Opk {
             Opk::Has(_) => "has_event",
             Opk::Get(_) => "get_event_by_id",
             Opk::Find(_) => "find_events",
+            Opk::Holder(_) => "find_(parameterized_)replaceable_event",
         }
     }
 }
@@ -112,6 +115,19 @@ pub fn exec(ctx: &Ctx, op: &Opk) -> Res {
             }
             Err(e) => Res::Failed(format!("{e}")),
         },
+        Opk::Holder(a) => {
+            let pa = to_addr(a);
+            let r = if is_param(a.kind) { ctx.store.find_parameterized_replaceable_event(&pa) } else { ctx.store.find_replaceable_event(pa.author, pa.kind) };
+            match r {
+                Ok(None) => Res::Got(None, true),
+                Ok(Some(e)) => {
+                    let got = id32(e.id());
+                    let ok = ctx.by_id.get(&got).map(|i| ctx.bytes[*i] == e.as_bytes()).unwrap_or(false);
+                    Res::Got(Some(got), ok)
+                }
+                Err(e) => Res::Failed(format!("{e}")),
+            }
+        }
         Opk::Find(fi) => match ctx.store.find_events(&ctx.filters[*fi], true, 0, 0, |_| {
             on_point("screen");
             ScreenResult::Match
@@ -338,6 +354,17 @@ pub fn catalogue(rng: &mut Rng) -> Vec<Scenario> {
             });
         }
     }
+    // S4d: the address lookups (find_replaceable_event / find_parameterized_replaceable_event) against a store that
+    //      replaces the holder, and against a deletion of the address: an occupied address never reads as empty
+    for (kind, tags) in [(10002u16, vec![]), (30023u16, vec![vec!["d".to_string(), "x".to_string()]])] {
+        let mut ev = base(rng);
+        ev.push(mk(rng, 0, kind, 170, tags.clone()));
+        let n = ev.len();
+        let addr = addr_of(&ev[n - 1].sem).unwrap();
+        let f = SemFilter { authors: vec![author(0)], kinds: vec![kind], ..SemFilter::empty() };
+        v.push(Scenario { name: format!("holder-lookup-vs-replacing-store-k{kind}"), events: ev.clone(), filters: vec![f.clone()], prepopulate: vec![0, 1, 2, 3], ops: vec![Opk::Holder(addr.clone()), Opk::Store(n - 1)] });
+        v.push(Scenario { name: format!("replacing-store-vs-holder-lookup-k{kind}"), events: ev, filters: vec![f], prepopulate: vec![0, 1, 2, 3], ops: vec![Opk::Store(n - 1), Opk::Holder(addr.clone()), Opk::Holder(addr)] });
+    }
     // S5: remove vs query / get
     {
         let ev = base(rng);
@@ -477,6 +504,7 @@ fn step_model(m: &mut Model, sc: &Scenario, op: &Opk, res: &Res) -> bool {
         }
         (Opk::Has(id), Res::Bool(b)) => *b == m.r.contains_key(id),
         (Opk::Get(id), Res::Got(g, ok)) => *ok && g.is_some() == m.r.contains_key(id) && g.map(|x| x == *id).unwrap_or(true),
+        (Opk::Holder(a), Res::Got(g, ok)) => *ok && *g == m.holder(a).map(|e| e.sem.id),
         (Opk::Find(fi), Res::Ids(ids, ok, sorted)) => {
             if !*ok || !*sorted {
                 return false;
@@ -749,6 +777,151 @@ pub fn classify_hang(rep: &mut Report, gdb_text: &str, what: &str) {
     }
 }
 
+// ------------------------------------------------------------------------------------------ leg 2b: replacement storm
+
+/// One writer replaces the holder of a replaceable and of a parameterised address thousands of times while reader
+/// threads hammer every lookup that can see those addresses. Online monitor (per reader thread): each address is
+/// occupied in every committed state, by exactly one event, and the holders' timestamps increase along the commit
+/// order - so a lookup never answers "nothing there", never returns two events of one address, and (real time: the
+/// previous answer was already returned) never returns an older holder than this thread has seen before. This opens
+/// windows that no pause point covers (e.g. between two snapshots taken inside one lookup).
+pub fn leg_storm(rep: &mut Report, args: &Args) {
+    let rounds = if args.thorough() { 40 } else { 3 };
+    let replacements = if args.thorough() { 4000u64 } else { 1500 };
+    for round in 0..rounds {
+        let dir = workdir().join(format!("c14_storm{round}"));
+        let _ = std::fs::remove_dir_all(&dir);
+        if std::fs::create_dir_all(&dir).is_err() {
+            continue;
+        }
+        // no growth of the map during the storm (see setup())
+        if let Ok(f) = std::fs::File::create(dir.join("event.map")) {
+            let _ = f.set_len(16 * 4096 * 1024);
+        }
+        let store = match Store::new(&dir, vec![]) {
+            Ok(s) => Arc::new(s),
+            Err(_) => continue,
+        };
+        let mut rng = Rng::new(args.seed() ^ 0x5707 ^ (round as u64) << 16);
+        let a = author(0);
+        let addr_r = AddrKey { kind: 10002, author: a, d: vec![] };
+        let addr_p = AddrKey { kind: 30023, author: a, d: b"slot".to_vec() };
+        let first_r = mk(&mut rng, 0, 10002, 1000, vec![]);
+        let first_p = mk(&mut rng, 0, 30023, 1000, vec![vec!["d".into(), "slot".into()]]);
+        let bystander = mk(&mut rng, 1, 1, 1000, vec![vec!["t".into(), "x".into()]]);
+        for e in [&first_r, &first_p, &bystander] {
+            let _ = store.store_event(&pocket_types::OwnedEvent(e.bytes.clone()));
+        }
+        let stop = Arc::new(AtomicBool::new(false));
+        let bad: Arc<Mutex<Vec<String>>> = Arc::new(Mutex::new(vec![]));
+        let lookups = Arc::new(AtomicU64::new(0));
+        let mut readers = vec![];
+        for t in 0..6usize {
+            let store = store.clone();
+            let stop = stop.clone();
+            let bad = bad.clone();
+            let lookups = lookups.clone();
+            let (ar, ap) = (to_addr(&addr_r), to_addr(&addr_p));
+            let f_r = SemFilter { authors: vec![a], kinds: vec![10002], ..SemFilter::empty() }.to_owned().unwrap();
+            let f_p = SemFilter { authors: vec![a], kinds: vec![30023], tags: vec![("d".into(), vec!["slot".into()])], ..SemFilter::empty() }.to_owned().unwrap();
+            let f_a = SemFilter { authors: vec![a], ..SemFilter::empty() }.to_owned().unwrap();
+            readers.push(std::thread::spawn(move || {
+                let mut seen_r = 0u64;
+                let mut seen_p = 0u64;
+                let mut note = |what: String| {
+                    let mut b = bad.lock().unwrap();
+                    if b.len() < 5 {
+                        b.push(what);
+                    }
+                };
+                let mut k = 0u64;
+                while !stop.load(Ordering::Relaxed) {
+                    k += 1;
+                    lookups.fetch_add(1, Ordering::Relaxed);
+                    match (k + t as u64) % 5 {
+                        0 => match store.find_replaceable_event(ar.author, ar.kind) {
+                            Ok(Some(e)) => {
+                                let ts = e.created_at().as_u64();
+                                if ts < seen_r {
+                                    note(format!("find_replaceable_event returned the holder of time {ts} after this thread had already seen {seen_r}"));
+                                }
+                                seen_r = seen_r.max(ts);
+                            }
+                            Ok(None) => note("find_replaceable_event: the occupied address read as empty".into()),
+                            Err(e) => note(format!("find_replaceable_event failed: {e}")),
+                        },
+                        1 => match store.find_parameterized_replaceable_event(&ap) {
+                            Ok(Some(e)) => {
+                                let ts = e.created_at().as_u64();
+                                if ts < seen_p {
+                                    note(format!("find_parameterized_replaceable_event returned the holder of time {ts} after this thread had already seen {seen_p}"));
+                                }
+                                seen_p = seen_p.max(ts);
+                            }
+                            Ok(None) => note("find_parameterized_replaceable_event: the occupied address read as empty".into()),
+                            Err(e) => note(format!("find_parameterized_replaceable_event failed: {e}")),
+                        },
+                        2 | 3 => {
+                            let (f, seen, nm) = if (k + t as u64) % 5 == 2 { (&f_r, &mut seen_r, "author+kind query of the replaceable address") } else { (&f_p, &mut seen_p, "author+kind+#d query of the parameterised address") };
+                            match store.find_events(f, true, 0, 0, |_| ScreenResult::Match) {
+                                Ok((evs, _)) => {
+                                    if evs.len() != 1 {
+                                        note(format!("{nm} returned {} events (exactly one event holds the address in every committed state)", evs.len()));
+                                    } else {
+                                        let ts = evs[0].created_at().as_u64();
+                                        if ts < *seen {
+                                            note(format!("{nm} returned the holder of time {ts} after this thread had already seen {}", *seen));
+                                        }
+                                        *seen = (*seen).max(ts);
+                                    }
+                                }
+                                Err(e) => note(format!("{nm} failed: {e}")),
+                            }
+                        }
+                        _ => match store.find_events(&f_a, true, 0, 0, |_| ScreenResult::Match) {
+                            Ok((evs, _)) => {
+                                let nr = evs.iter().filter(|e| e.kind().as_u16() == 10002).count();
+                                let np = evs.iter().filter(|e| e.kind().as_u16() == 30023).count();
+                                if nr != 1 || np != 1 {
+                                    note(format!("author query saw {nr} events at the replaceable and {np} at the parameterised address (exactly one each in every committed state)"));
+                                }
+                            }
+                            Err(e) => note(format!("author query failed: {e}")),
+                        },
+                    }
+                }
+            }));
+        }
+        let mut stored = 0u64;
+        for i in 0..replacements {
+            let e = if i % 2 == 0 { mk(&mut rng, 0, 10002, 1001 + i, vec![]) } else { mk(&mut rng, 0, 30023, 1001 + i, vec![vec!["d".into(), "slot".into()]]) };
+            if store.store_event(&pocket_types::OwnedEvent(e.bytes.clone())).is_ok() {
+                stored += 1;
+            }
+        }
+        stop.store(true, Ordering::Relaxed);
+        for h in readers {
+            let _ = h.join();
+        }
+        rep.eval(fnv(format!("storm{round}{}", args.seed()).as_bytes()), true);
+        rep.count("storm_rounds");
+        rep.count_n("storm_replacements", stored);
+        rep.count_n("storm_concurrent_lookups", lookups.load(Ordering::Relaxed));
+        let b = bad.lock().unwrap();
+        if !b.is_empty() {
+            rep.finding("storm:lookup-saw-no-committed-state", &format!("round {round}, {} replacements against {} concurrent lookups: {}", stored, lookups.load(Ordering::Relaxed), b.join(" | ")), json!({"kind":"storm","round":round}));
+        }
+        drop(b);
+        if let Ok(s) = Arc::try_unwrap(store) {
+            let _ = s.verif_close();
+        }
+        let _ = std::fs::remove_dir_all(&dir);
+        if rep.has_finding("storm:lookup-saw-no-committed-state") {
+            break;
+        }
+    }
+}
+
 // ------------------------------------------------------------------------------------------ leg 2: stress
 
 pub fn leg_stress(rep: &mut Report, args: &Args) {
@@ -796,6 +969,13 @@ pub fn leg_stress(rep: &mut Report, args: &Args) {
                     0 => script.push(Opk::Find(rng.usize_below(filters.len()))),
                     1 => script.push(Opk::Get(events[rng.usize_below(events.len())].sem.id)),
                     2 => script.push(Opk::Has(events[rng.usize_below(events.len())].sem.id)),
+                    3 => {
+                        // the address of some replaceable / parameterised event of the pool
+                        let with_addr: Vec<AddrKey> = events.iter().filter_map(|e| addr_of(&e.sem)).collect();
+                        if !with_addr.is_empty() {
+                            script.push(Opk::Holder(rng.pick(&with_addr).clone()));
+                        }
+                    }
                     _ => {}
                 }
             }
@@ -934,7 +1114,7 @@ fn check_stress(rep: &mut Report, sc: &Scenario, live: &Live, recs: &[Rec], roun
         let mut ok = false;
         match (&r.op, &r.res) {
             (Opk::Store(_), Res::Store(Outcome::Ok(_))) => ok = true,
-            (Opk::Store(_), Res::Store(Outcome::Err(_))) | (Opk::Has(_), _) | (Opk::Get(_), _) | (Opk::Find(_), _) => {
+            (Opk::Store(_), Res::Store(Outcome::Err(_))) | (Opk::Has(_), _) | (Opk::Get(_), _) | (Opk::Find(_), _) | (Opk::Holder(_), _) => {
                 for k in lo..=hi.min(n) {
                     let mut m = states[k].clone();
                     if step_model(&mut m, sc, &r.op, &r.res) {
@@ -1187,11 +1367,16 @@ pub fn run(args: &Args) -> Report {
     let mut rep = Report::new("C14", &args.leg(), &args.tier(), args.seed());
     match args.get_str("part", "all").as_str() {
         "schedules" => leg_schedules(&mut rep, args),
-        "stress" => leg_stress(&mut rep, args),
+        "stress" => {
+            leg_stress(&mut rep, args);
+            leg_storm(&mut rep, args);
+        }
+        "storm" => leg_storm(&mut rep, args),
         "growth" => leg_growth(&mut rep, args),
         _ => {
             leg_schedules(&mut rep, args);
             leg_stress(&mut rep, args);
+            leg_storm(&mut rep, args);
         }
     }
     pocket_db::verif::set_point_handler(None);
@@ -1202,13 +1387,18 @@ pub fn run(args: &Args) -> Report {
                 rep.require("growth_g2_runs", "growth scenario g2 did not run");
                 rep.require("growth_g1_growths_observed", "no growth of the map observed in g1");
             }
-            "stress" => rep.require("stress_rounds", "no stress round completed"),
+            "stress" => {
+                rep.require("stress_rounds", "no stress round completed");
+                rep.require("storm_concurrent_lookups", "the replacement storm saw no concurrent lookup");
+            }
+            "storm" => rep.require("storm_concurrent_lookups", "the replacement storm saw no concurrent lookup"),
             "schedules" | _ => {
                 rep.require("schedules_where_B_blocked_behind_A", "no schedule in which the second operation blocked behind the paused one");
                 rep.require("schedules_where_B_ran_while_A_was_parked", "no schedule in which the second operation ran while the first was parked");
                 if args.get_str("part", "all") == "all" {
                     rep.require("stress_rounds", "no stress round completed");
                     rep.require("ops_with_several_candidate_states", "no stress operation overlapped a commit");
+                    rep.require("storm_concurrent_lookups", "the replacement storm saw no concurrent lookup");
                 }
             }
         }
